@@ -311,7 +311,7 @@ def gen_case(rng, widen, thorough):
 
 
 def gen_cases(ctx):
-    return [gen_case(ctx.rng, ctx.widen, ctx.thorough) for _ in range(ctx.budget(900, 24000))]
+    return [gen_case(ctx.rng, ctx.widen, ctx.thorough) for _ in range(ctx.budget(900, 10000))]
 
 
 def shrink_candidates(case):
